@@ -40,6 +40,9 @@ def install_budget(job, r, budget):
         table[op] = counted
 
 
+VIA_FILE = [False]      # set by a check: compile through a UTF-8 script file
+
+
 def run_script(text, decisions=None, keep_job=False, job=None, budget=100000,
                monitor=False, mon=None, stop_at=None):
     """Compile `text` in a fresh ScriptJob (or re-run `job`) and execute it."""
@@ -55,7 +58,21 @@ def run_script(text, decisions=None, keep_job=False, job=None, budget=100000,
     r.leftovers = []
     if job is None:
         try:
-            job = ScriptJob.from_string(text)
+            if VIA_FILE[0]:
+                # the way `lsrun file.ls` and the web server get their
+                # scripts: from a (UTF-8) file
+                import os
+                d = os.path.join(env.VERIF, '.work')
+                os.makedirs(d, exist_ok=True)
+                path = os.path.join(d, 'script-{}.ls'.format(os.getpid()))
+                with open(path, 'w', encoding='utf-8') as f:
+                    f.write(text)
+                try:
+                    job = ScriptJob.from_file(path)
+                finally:
+                    os.unlink(path)
+            else:
+                job = ScriptJob.from_string(text)
         except Exception as ex:
             r.compile_exc = ex
             r.accepted, r.errors = None, ''
